@@ -78,6 +78,21 @@ def opOfJson (j : Json) : Except String Op := do
   | "parent" => pure (.parentOf (← jnat j "c"))
   | "spawn" => pure (.spawn t (← jnat j "t2"))
   | "state" => pure (.stateOf (← jnat j "c"))
+  | "inject" =>
+    let deps ← (← jarr j "deps").mapM fun d => do
+      pure ({ param := ← jstr d "param", key := ⟨← jnat d "ty", ← jstr d "name"⟩,
+              optional := ← jbool d "opt" } : Dep)
+    pure (.inject t (← jbool j "async") deps (jboolD j "badUnion" false))
+  | "decorate" =>
+    let ps ← (← jarr j "params").mapM fun d => do
+      let kind := match (jstr d "kind").toOption.getD "normal" with
+        | "posonly" => PKind.posOnly | "kwonly" => PKind.kwOnly | _ => PKind.normal
+      let dflt := match (jstr d "dflt").toOption.getD "none" with
+        | "value" => PDefault.value | "uncalled" => PDefault.uncalled
+        | "marker" => PDefault.marker ((jstr d "mname").toOption.getD "default")
+        | _ => PDefault.noDefault
+      pure ({ name := ← jstr d "name", kind := kind, dflt := dflt, annotated := (jopt d "annot").isSome } : Param)
+    pure (.decorate ps)
   | o => throw s!"bad op {o}"
 
 def valStr : Val → String
@@ -141,6 +156,9 @@ partial def outStr : Out → Option String
   | .task t o => some s!"task {t} [{", ".intercalate (outStrs o)}]"
   | .all items => some ("all [" ++ ", ".intercalate (items.map fun (n, v) => s!"{n}={valStr v}") ++ "]")
   | .stateIs _ f => some s!"state {if f then "True" else "False"}"
+  | .arg p v => some s!"arg {p}={match v with | none => "none" | some v => valStr v}"
+  | .called => some "called"
+  | .warnNoInject => some "warnNoInject"
 end
 
 /-- Events in dispatch order, including those produced inside callback bodies and resumed lookups. -/
